@@ -45,6 +45,8 @@ def explore(binary, bodies, level, k, shard, nshards, deadline_s):
 
 def main():
     prop, tier = sys.argv[1], sys.argv[2]
+    if tier == "thorough" and not os.environ.get("VERIF_DEADLINE_S"):
+        os.environ["VERIF_DEADLINE_S"] = "3600"   # measured: 2200 s on 16 cores for the full thorough plan
     run = Run("sched", prop, tier)
     run.assumptions = ["scheduling points: explicit points between library calls (api), entries of functions named ASAM::CMP:: / TECMP:: (func), every basic block of the "
                        "library translation units (bb), inserted by the compiler (-fsanitize-coverage); preemption inside uninstrumented libstdc++/libc is not explored",
@@ -89,7 +91,7 @@ def main():
             tasks.append((p, 1, 2, 16))
         for t in [("enc", "dec", "status"), ("tecmp", "build", "enc"), ("dec", "dec", "dec")]:
             tasks.append((t, 1, 1, 8))
-            tasks.append((t, 0, 99, 1))
+            tasks.append((t, 0, 2, 1))
     jobs = []
     for (bodies, level, k, ns) in tasks:
         for s in range(ns):
